@@ -40,6 +40,8 @@ class RecWriter:
 
     def __init__(self, target=None, **kw):
         self.fields, self.records, self.shapes = [], [], []
+        # pyshp names the .shp / .shx / .dbf files after the target with its last extension removed
+        self.base = None if target is None else os.path.splitext(str(target))[0]
         RecWriter.last = self
 
     def __enter__(self):
@@ -232,13 +234,19 @@ def body_large(ctx, conv):
     os.makedirs(os.path.join(VERIF, '.work'), exist_ok=True)
     work = tempfile.mkdtemp(dir=os.path.join(VERIF, '.work'), prefix='c15L-')
     try:
-        G.write_shapefile(ds, os.path.join(work, 's.shp'))
+        # a target given as a path object whose name has dots of its own: the files are the ones asked for
+        import pathlib
+        target = pathlib.Path(work) / 'cells.v2.shp'
+        G.write_shapefile(ds, target)
         if ctx.symbolic:
             w = RecWriter.last
             recs = w.records
+            ctx.check(w.base == os.path.join(work, 'cells.v2'), 'Shapefile: the files written are the ones named by the target')
         else:
             import shapefile
-            rd = shapefile.Reader(os.path.join(work, 's.shp'))
+            ctx.check(all(os.path.exists(os.path.join(work, 'cells.v2' + ext)) for ext in ('.shp', '.shx', '.dbf')),
+                      'Shapefile: the files written are the ones named by the target')
+            rd = shapefile.Reader(str(target))
             fields = [f[0] for f in rd.fields[1:]]
             recs = [dict(zip(fields, list(r))) for r in rd.records()]
             rd.close()
